@@ -243,6 +243,27 @@ def correspond(ctx):
                          rule="symmetric: HMAC keys of every length 0..1100 (+2048, 4096) offered to signing and to verification of a MAC computed with that very key (and with the key padded to the hash size); content keys and key-wrapping keys of every length around the exact one offered to encryption / wrapping; tokens produced with the exact key consumed with every truncation and with the key followed / preceded by extra octets (zero or random); PBES2 passwords up to 4 KiB; malformed k. Quick tier: neighbourhoods of every boundary plus a random sample",
                          dist=dist)
 
+    # a key-wrapping key that DECLARES a content algorithm of another size (a former "dir" key): the A*GCMKW cipher is the one
+    # the header names, so a key of the wrong length is refused whatever its own "alg" says (implementation only)
+    gk = []
+    for walg, need in (("A128GCMKW", 16), ("A192GCMKW", 24), ("A256GCMKW", 32)):
+        for kalg, kl in (("A128GCM", 16), ("A192GCM", 24), ("A256GCM", 32)):
+            if kl == need:
+                continue
+            for enc_ in ("A128GCM", kalg):
+                gk.append(("jweenc\t%s\t-\t%s\t00" % (G.dumps({"protected": {"alg": walg, "enc": enc_}}), G.dumps(okey(rb(rnd, kl), alg=kalg))), "%s with a %d-octet key declaring %s (enc %s) [wrap]" % (walg, kl, kalg, enc_)))
+        made = G.harness(bdir, ["jweenc\t%s\t-\t%s\t00" % (G.dumps({"protected": {"alg": walg, "enc": "A256GCM" if need != 32 else "A128GCM"}}), G.dumps(okey(rb(rnd, need))))])[0]
+        if made.startswith("{"):
+            other = 32 if need != 32 else 16
+            gk.append(("jweunw\t%s\t-\t%s" % (made, G.dumps(okey(rb(rnd, other), alg="A256GCM" if other == 32 else "A128GCM"))), "%s token, %d-octet key declaring the token's enc [unwrap]" % (walg, other)))
+    for (c_, what_), o in zip(gk, G.harness(bdir, [x[0] for x in gk])):
+        if o.startswith("CRASH"):
+            rep.violation("crash:gcmkw-key-alg", "crash: " + o[:200], {"case": c_[:2000]})
+        elif o != "ERR":
+            rep.violation("weak-key-accepted:gcmkw:key-declares-another-size", "%s: the operation succeeded with a key of the wrong length" % what_, {"case": c_[:2000], "implementation": o[:200]})
+    st["evaluations"] += len(gk)
+    dist["A*GCMKW with keys of another length that declare a content algorithm"] = len(gk)
+
     # ------------------------------------------------------------------ public-key material
     pk = []     # (harness case, model op, model alg, key json text, expected verdict token, python judgement, what)
     rsa = json.load(open(os.path.join(os.path.dirname(__file__), "..", "data", "rsa_small.json")))
